@@ -127,6 +127,24 @@ def writer_reader(ctx, g, rd):
            "printer omits the dimension for dim == %s but the grammar's default is %s: printed symbols of that dimension parse with another dimension" % (wconst, rconst))
 
 
+def grammar_total(ctx, g):
+    """the grammar's own functions and closures (which nom calls back with arbitrary text) contain no panic site: no unwrap/expect, no
+    index, no overflowing arithmetic, no assertion.  The nom combinators themselves are axiom A3; T5 from from_str does not see through
+    them (the grammar functions are passed as fn items), so this is decided per body."""
+    ctx.clauses.append("the grammar functions and closures handed to nom cannot panic on any text (T5, per body)")
+    eng = T5(ctx.facts, max_depth=3)
+    bodies = [b for d, b in sorted(ctx.facts.bodies.items()) if d.startswith("parse_dsym::") and not b.f.get("test") and "::test" not in d]
+    ctx.scan(bodies)
+    ctx.floor("grammar functions and closures in parse_dsym", len(bodies), 10)
+    for b in bodies:
+        left = [c for c in eng.raw_clauses(b, 0) if eng.discharge(b, c, lambda t: True)[0] != "discharged"]
+        what = sorted({"%s" % (c.kind,) for c in left})
+        ctx.ob("T5-grammar-total", b.name, "panic sites", "ok" if not left else "violation",
+               "no panic site survives local discharge" if not left else
+               "the grammar can panic on some text: %d undischarged panic condition(s) %s, e.g. %s" % (len(left), what, eng.sig_atom(left[0].trig[0], b)[:90] if left[0].trig else ""),
+               left[0].span if left and getattr(left[0], "span", None) else None)
+
+
 def run(ctx):
     g = ctx.facts.getters()
     body = ctx.body(ENTRY)
@@ -182,6 +200,7 @@ def run(ctx):
     ctx.notes.append("T5 stats: %s; functions reachable from from_str: %d" % (eng.stats, len(reach)))
 
     writer_reader(ctx, g, body)
+    grammar_total(ctx, g)
     # ---- U3: unwrap of a lookup in one of the parsed lists needs a dominating comparison on that list's length
     nu = 0
     for bi, t in body.calls("option::Option::<T>::unwrap"):
